@@ -30,7 +30,7 @@ func (c04) CaseBudget(string) time.Duration { return 900 * time.Second }
 func (c04) Cases(tier string, seed uint64) []core.Case {
 	n := 16
 	if tier == "thorough" {
-		n = 200
+		n = 320
 	}
 	r := core.NewRng(core.Mix(seed, 0xC04))
 	var out []core.Case
